@@ -685,6 +685,14 @@ cJSON* build_tree(const RV& v) {
     return nullptr;
 }
 
+cJSON* build_tree_cs(const RV& v) {
+    switch (v.k) {
+        case RV::Arr: { cJSON* a = LIB(cJSON_CreateArray()); for (auto& e : v.arr) { cJSON* c = build_tree_cs(e); LIBV(cJSON_AddItemToArray(a, c)); } return a; }
+        case RV::Obj: { cJSON* o = LIB(cJSON_CreateObject()); for (auto& e : v.obj) { cJSON* c = build_tree_cs(e.second); LIBV(cJSON_AddItemToObjectCS(o, e.first.c_str(), c)); } return o; }
+        default: return build_tree(v);
+    }
+}
+
 // ------------------------------------------------------------------ worker pool
 namespace {
 struct Slot {
